@@ -75,8 +75,52 @@ def run_one(m, args, slot):
         shutil.rmtree(d, ignore_errors=True)
 
 
+def run_control(m, args, slot):
+    """a behaviour-preserving edit: every listed check must stay silent on it"""
+    d = make_scratch(args.scratch)
+    t0 = time.time()
+    try:
+        err = apply_edit(d, m)
+        if err:
+            return m, "STALE", err, 0
+        alarms = []
+        for prop in m["properties"]:
+            env = dict(os.environ, SS_REPO=d, SS_EVIDENCE_DIR=os.path.join(d, "_ev"), SS_REPLAY_DIR=os.path.join(d, "_rp"),
+                       SS_CACHE=os.path.join(VERIF, ".cache", "mut%d" % slot))
+            if m.get("configs"):
+                env["SS_CONFIGS"] = m["configs"]
+            p = subprocess.run([os.path.join(VERIF, "check"), prop], env=env, stdout=subprocess.PIPE, stderr=subprocess.STDOUT, text=True)
+            if "facts-unavailable" in p.stdout:
+                return m, "NOCOMPILE", p.stdout[-1500:], time.time() - t0
+            if p.returncode != 0 or "VIOLATION" in p.stdout:
+                alarms.append(prop + ": " + " ".join(l.strip() for l in p.stdout.splitlines() if l.startswith("  violation "))[:600])
+        if alarms:
+            return m, "ALARM", "\n".join(alarms), time.time() - t0
+        return m, "SILENT", "", time.time() - t0
+    finally:
+        shutil.rmtree(d, ignore_errors=True)
+
+
+def main_controls(args):
+    cs = []
+    for p in sorted(glob.glob(os.path.join(VERIF, "controls", "*.json"))):
+        cs += json.load(open(p))
+    if args.mutant:
+        cs = [c for c in cs if c["id"] == args.mutant]
+    bad = []
+    for k, c in enumerate(cs):
+        m, status, detail, dt = run_control(c, args, k % max(args.j, 1))
+        print("%-9s %-44s %5.1fs  %s" % (status, c["id"], dt, c.get("what", "")[:90]))
+        if status != "SILENT":
+            print("    " + detail.replace("\n", "\n    ")[-1800:])
+            bad.append(c["id"])
+    print("controls: %d behaviour-preserving edits, %d silent, alarms on: %s" % (len(cs), len(cs) - len(bad), bad))
+    sys.exit(1 if bad else 0)
+
+
 def main():
     ap = argparse.ArgumentParser()
+    ap.add_argument("--controls", action="store_true", help="run controls/*.json: behaviour-preserving edits on which every listed check must stay silent")
     ap.add_argument("-p", "--prop")
     ap.add_argument("-m", "--mutant")
     ap.add_argument("-j", type=int, default=4)
@@ -84,6 +128,8 @@ def main():
     ap.add_argument("--scratch", default=os.environ.get("SS_SCRATCH", "/tmp"))
     ap.add_argument("-v", action="store_true")
     args = ap.parse_args()
+    if args.controls:
+        return main_controls(args)
     ms = load_mutants()
     if args.prop:
         ms = [m for m in ms if m["property"] == args.prop]
